@@ -1297,6 +1297,9 @@ def build_fn(fs, repo, effectful, table_keys, canary=False):
             if not hit and '::' in key and not key.startswith('.'):
                 # `libfs::foo(` style paths: also try the bare name when declared with a `*::` wildcard
                 hit = ('*::' + st[i][1]) in eff
+            if hit and key == '.write' and st[i + 2][1] in ('true', 'false') and st[i + 3][1] == ')':
+                # OpenOptions::write(bool), the builder method of the same name as File::write(&[u8])
+                hit = False
             if hit and key in ('.is_dir', '.is_file', '.is_symlink') and _receiver_is_metadata(st, i, body_open):
                 # the same method names exist on std::fs::Metadata / FileType (pure accessors of a snapshot, no world token)
                 hit = False
